@@ -3,7 +3,7 @@ import json
 import os
 
 import common
-from . import gradual, scoregen, decoder, convert, builders
+from . import gradual, scoregen, decoder, convert, builders, modsrep
 
 REGISTRY = {}
 REGISTRY.update(gradual.REGISTRY)
@@ -11,6 +11,7 @@ REGISTRY.update(scoregen.REGISTRY)
 REGISTRY.update(decoder.REGISTRY)
 REGISTRY.update(convert.REGISTRY)
 REGISTRY.update(builders.REGISTRY)
+REGISTRY.update(modsrep.REGISTRY)
 
 
 def setup():
@@ -34,7 +35,7 @@ def replay(path):
     obj = json.load(open(path))
     prop = obj["property"]
     kind = obj["replay"].get("kind")
-    for mod in (gradual, scoregen, decoder, convert, builders):
+    for mod in (gradual, scoregen, decoder, convert, builders, modsrep):
         if kind in mod.REPLAY_KINDS:
             return mod.replay(prop, obj)
     common.log("no replay handler for kind %r" % kind)
